@@ -1584,6 +1584,12 @@ class ModelBuilder:
                                 delta = timedelta(minutes=num)
                             elif unit == "d":
                                 delta = timedelta(days=num)
+                            elif unit == "w":
+                                delta = timedelta(weeks=num)
+                            elif unit == "m":
+                                delta = timedelta(days=num * 30.4167)
+                            elif unit == "y":
+                                delta = timedelta(days=num * 365)
                             else:
                                 delta = timedelta(hours=num)
                         else:
